@@ -12,6 +12,19 @@ def obligations(tier):
                         unwindset=["strchr.0:18"], flags=["--object-bits", "10"], backends=["cadical"], timeout=1800 if T else 280,
                         claim=what + ": on every byte string of every length %d..%d placed in an exact-size heap object, from every start offset: reads only [buf, end), returns a pointer in [buf, end], terminates; callees' preconditions hold (modular induction over the recursion)" % (lo, hi),
                         bounds="%d <= n <= %d bytes, all byte values, keys of <= 2 characters" % (lo, hi), stubs=["strchr/memcmp: CBMC library models"] + ["%s -> contract stub" % r.split(":")[0] for r in rep]))
+    # parsers whose exact-size-object harnesses live with C16/C17/C18 (same harness, all pointer/bounds checks on)
+    to = 1800 if T else 280
+    obs.append(dict(name="b64decode-memory-safe", harness="../C17/codec.c", entry="h_b64decode", defs=["MAXIN=%d" % (12 if T else 8)], unwind=16, unwindset=["strchr.0:67", "b64decode#0:%d" % ((12 if T else 8) + 1), "b64decode#1:4"],
+                    timeout=to, claim="b64decode: input object of exactly inlen bytes (every byte value incl. NUL), output object of exactly inlen/4*3 bytes: no access outside either", bounds="inlen <= %d" % (12 if T else 8), stubs=["strchr: CBMC model"]))
+    obs.append(dict(name="unhexify-memory-safe", harness="../C17/codec.c", entry="h_unhexify", defs=["MAXLEN=%d" % (5 if T else 3)], unwind=14, unwindset=["strchr.0:67", "unhexify#0:%d" % (2 * (5 if T else 3) + 1), "unhexify#1:%d" % ((5 if T else 3) + 1)],
+                    timeout=to, claim="unhexify: 2*len-character buffer or a shorter NUL-terminated string in an exact-size object: never reads past the NUL / the buffer, writes only out[0..len)", bounds="len <= %d" % (5 if T else 3), stubs=["strchr: CBMC model"]))
+    obs.append(dict(name="humansize-parse-memory-safe", harness="../C16/hsize.c", entry="h_parse", defs=["MINL=0", "MAXL=4"], unwind=8, flags=["--object-bits", "10"], timeout=to,
+                    claim="humansize_parse reads only the NUL-terminated string (exact-size objects, lengths 0..4)", bounds="length <= 4 here; longer in C16", stubs=[]))
+    obs.append(dict(name="parsenum-memory-safe", harness="../C16/pnum.c", entry="h_size", defs=["MINL=0", "MAXL=2"], unwind=6, flags=["--object-bits", "10"], timeout=to,
+                    claim="PARSENUM_EX into size_t reads only the NUL-terminated string (exact-size objects), over the strto models", bounds="length <= 2 here; longer in C16", stubs=["strtoumax -> model"]))
+    obs.append(dict(name="getopt-memory-safe", harness="../C18/h_getopt.c", entry="h_parse", defs=["NARG=2", "SLEN=4"], unwind=12,
+                    unwindset=["strlen.0:8", "strcmp.0:8", "strncmp.0:8", "reset.0:3", "searchopt.0:7", "getopt_setrange.0:7"], timeout=to,
+                    claim="getopt() on every argv of <= 2 strings of <= 4 characters: no out-of-bounds access, optind within [1, argc], optarg NULL or inside an argv string", bounds="2 x 4", stubs=["atexit"]))
     return obs
 TRUSTED = ["CBMC 6.11 C semantics, pointer/bounds checks", "cadical"]
 ASSUMPTIONS = []
